@@ -1,35 +1,11 @@
-"""C18 sanitizer pass: the same harness workload under valgrind memcheck (Rust and C code)."""
-import os, re, subprocess, time
+"""C18 sanitizer passes (the bundles are the crate's only unsafe code)."""
+import os, sys
+sys.path.insert(0, os.path.dirname(os.path.abspath(__file__)))
+import sanitize
 
 def post(prop, tier, seed, total, run_dir, binary):
-    cases = 120 if tier == "quick" else 1500
-    out = os.path.join(run_dir, "memcheck.json")
-    log = os.path.join(run_dir, "memcheck.log")
-    t0 = time.time()
-    cmd = ["valgrind", "--tool=memcheck", "--error-exitcode=0", "--leak-check=no", "--num-callers=30",
-           "--log-file=" + log, binary, "run", prop, "--tier", tier, "--seed", str(seed + 7919),
-           "--shard", "0", "--nshards", "1", "--out", out, "--cases", str(cases), "--case-cpu", "100000",
-           "--replays", os.path.join(os.path.dirname(run_dir), "..", "replays")]
-    try:
-        p = subprocess.run(cmd, stdout=subprocess.DEVNULL, stderr=subprocess.DEVNULL, timeout=1500 if tier == "quick" else 7200)
-        rc = p.returncode
-    except subprocess.TimeoutExpired:
-        total["inconclusive"]["memcheck: wall clock limit"] = 1
-        return
-    text = open(log, errors="replace").read() if os.path.exists(log) else ""
-    m = re.search(r"ERROR SUMMARY: (\d+) errors", text)
-    errors = int(m.group(1)) if m else None
-    total["features"]["memcheck:trees"] = cases if rc == 0 else 0
-    total["features"]["memcheck:seconds"] = int(time.time() - t0)
-    if errors is None or rc != 0:
-        total["inconclusive"]["memcheck: run did not complete (rc %s)" % rc] = 1
-        return
-    total["features"]["memcheck:error_reports"] = errors
-    if errors > 0:
-        # keep the first report as the witness
-        first = text[text.find("=="):][:3000]
-        rp = os.path.join("/verif/replays", prop)
-        os.makedirs(rp, exist_ok=True)
-        path = os.path.join(rp, "memcheck_seed%d.log" % seed)
-        open(path, "w").write(text)
-        total["violations"].append({"signature": "C18:memcheck-report", "message": "valgrind memcheck reported %d errors on the bundle workload: %s" % (errors, first[:600].replace("\n", " | ")), "replay": path})
+    if tier == "quick":
+        sanitize.run_memcheck(prop, tier, seed, total, run_dir, binary, 120, timeout=900)
+    else:
+        sanitize.run_memcheck(prop, tier, seed, total, run_dir, binary, 1500, timeout=3000)
+        sanitize.run_variant("asan", prop, tier, seed, total, run_dir, 16, 4000, timeout=2400)
